@@ -669,15 +669,11 @@ def judge(case, impl, model):
         if d:
             real_interf[c] = d
     if model is None:      # oracle-only history (outside the model's vocabulary)
-        srcs = srcs_of(case)
-        fastc = {c for c, s_ in srcs.items() if s_.get("fast")}
+        # no registry-keyed attribution here: every difference in an oracle-only history is reported under the
+        # generic key (the finding that used to cover Array-of-FastSerializable holders is fixed, /repo 1424460)
         for c, d in sorted(real_interf.items()):
-            # a class that (transitively) holds an Array of a FastSerializable class is in the region of the
-            # listed finding "Array.serialize freezes the item class's serialize at its first call"
-            arr = any(f["kind"].get("arr") and f["kind"].get("ref") in fastc
-                      for k in impl["closures"].get(str(c), [c]) if k in srcs for f in flat_fields(srcs, k))
-            key = "early-bound:cls.serialize:Array.serialize" if arr else "unexplained-interference"
-            fails.append((key, f"class {c} ({case_name(case, c)}) behaves differently after the history than alone: {d}"))
+            fails.append(("unexplained-interference",
+                          f"class {c} ({case_name(case, c)}) behaves differently after the history than alone: {d}"))
         return None, fails
     # ---- correspondence with the Lean World model
     msteps = model.get("steps", [])
